@@ -6,12 +6,22 @@ proved in Lean over all interleavings (Props/C17.lean); the tie to /repo is
 computer}.go, (2) the logged pool events of real concurrent runs replayed on
 the model, (3) the implementation-side oracle: a stress program, built with
 and without the Go race detector, that compares every concurrent result with
-the single-goroutine result for the same tape.  Go-memory-model data races are
-observable only at run time.
+the single-goroutine result for the same tape, (4) GC histories (mode gchist):
+garblings of which the caller keeps only the data (header dropped), forced
+collections, further Garble calls on the same circuit, the retained data
+re-read and evaluated -- "valid until released" is about the data, whoever
+holds the header (Model/PoolGC.lean, C17_retained_garbling_valid).
+Go-memory-model data races are observable only at run time.
+
+bin/check C17 --replay F: when F holds a failing round / GC history of the
+harness (derived from (seed, index)), exactly that case is re-run.
 """
 import glob
 import hashlib
+import json
 import os
+import re
+import sys
 
 import vlib
 
@@ -29,6 +39,9 @@ THEOREMS = [
     "Mpc.Pool.C17_concurrent_garbling_evaluates_correctly",
     "Mpc.Pool.C17_contract_needed_concurrent_release",
     "Mpc.Pool.C17_contract_needed_value_copy",
+    "Mpc.Pool.C17_gc_put_only_by_release_or_error_path",
+    "Mpc.Pool.C17_retained_garbling_valid",
+    "Mpc.Pool.C17_autorelease_breaks_retained_validity",
 ]
 
 GORACE = "halt_on_error=1 exitcode=66"
@@ -125,14 +138,27 @@ def check_facts(ctx, facts):
     ctx.advise("Release: guard / Put / clear order (decided by the effect set of Release and the Release, "
                "second-Release and nil-Release operations of the stress oracle)",
                facts.get("release_shape"), ADVISE_RELEASE_SHAPE)
+    ctx.advise("package circuit hands nothing to the collector's callbacks (runtime.SetFinalizer / AddCleanup / "
+               "weak.Make): the model of GC histories has no collector transition (Model/PoolGC.lean, fin = false; "
+               "what such a hook does to a retained garbling is decided by the GC-history oracle)",
+               facts.get("collector_hooks"), [])
 
 
-def distinct_traces(ctx, ops):
+def distinct_traces(ctx, ops, gc=False):
     for line in open(ops, errors="replace"):
         toks = line.split()[2:]
         tids = {t.split(":")[1] for t in toks if ":" in t}
-        # non-trivial: at least two goroutines and at least one garbling
-        if len(tids) >= 2 and any(t.startswith("G:") for t in toks):
+        # non-trivial: at least two goroutines and at least one garbling; a GC history: a dropped header, a
+        # collection and a later Garble (one goroutine is enough: the history is the point)
+        if gc:
+            ks = [t[0] for t in toks]
+            try:
+                ok = "G" in ks[ks.index("K", ks.index("D")):]
+            except ValueError:
+                ok = False
+        else:
+            ok = len(tids) >= 2 and any(t.startswith("G:") for t in toks)
+        if ok:
             ctx.distinct.add(hashlib.sha1(line.encode()).digest())
 
 
@@ -183,6 +209,34 @@ def stress(ctx, n, seed, binary=None, race=False, tag=""):
         distinct_traces(ctx, ops)
 
 
+def gchist(ctx, n, seed, wide=False, tag=""):
+    """GC histories (harness/cmd/c17/gchist.go); plain build (the schedule is sequential but for joined helpers)."""
+    ops, out, m = ctx.run_hx("gchist", n, seed=seed, tag=tag + ("-wide" if wide else ""), timeout=900,
+                             extra_args=["-extra", "wide"] if wide else [])
+    ctx.absorb_meta(m, prefix="gc_")
+    if not m.get("harness_rc") and os.path.exists(ops) and os.path.getsize(ops) > 0:
+        ctx.correspond("pool-event traces of GC histories (header drops, collections) are runs of the model "
+                       "(%sseed %d)" % ("wide, " if wide else "", seed), ops, out)
+        distinct_traces(ctx, ops, gc=True)
+
+
+def replay_request():
+    """bin/check C17 --replay F: (mode, extra, seed, n, case) when F holds a failing case of the harness.  The harness
+    derives every round / GC history from (seed, case index), so `-only <case>` re-runs exactly that case."""
+    if "--replay" not in sys.argv:
+        return None
+    try:
+        f = sys.argv[sys.argv.index("--replay") + 1]
+        f = f if os.path.isabs(f) else os.path.join(vlib.VERIF, f)
+        fl = json.load(open(f)).get("failure") or {}
+        m = re.match(r"c17 (stress|gchist)( -extra wide)? -seed (\d+) -n (\d+) -only (\d+)$", fl.get("replay", ""))
+        if not m:
+            return None
+        return m.group(1), bool(m.group(2)), int(m.group(3)), int(m.group(4)), int(m.group(5)), fl.get("history")
+    except Exception:
+        return None
+
+
 def run(ctx):
     ctx.prove("MpcVerif.Props.C17", THEOREMS)
     if ctx.tier == "thorough":
@@ -198,6 +252,28 @@ def run(ctx):
     quick = ctx.tier == "quick"
     seeds = [ctx.seed] if quick else [ctx.seed, ctx.seed + 1000, ctx.seed + 2000, ctx.seed + 3000]
     if ctx.build_hx():
+        # ---- --replay of one recorded round / GC history: exactly that case; a reproduced failure decides the run
+        rq = replay_request()
+        if rq:
+            mode, wide, seed, n, case, hist = rq
+            for attempt in range(3):   # the case is fixed; the goroutine / collector schedule is the machine's
+                ops, out, m = ctx.run_hx(mode, n, seed=seed, tag="-replay%d" % attempt, timeout=600,
+                                         extra_args=["-only", str(case)] + (["-extra", "wide"] if wide else []))
+                ctx.absorb_meta(m, prefix="replay_")
+                if os.path.exists(ops) and os.path.getsize(ops) > 0:
+                    ctx.correspond("replayed %s case %d of seed %d (attempt %d)" % (mode, case, seed, attempt), ops, out)
+                if ctx.fails:
+                    break
+            print("replayed %s case %d of seed %d (n=%d): %d oracle failure(s)" % (mode, case, seed, n, len(ctx.fails)))
+            if hist:
+                print("  history: " + vlib.clip(hist, 700))
+            for f in ctx.fails[:3]:
+                print("  " + json.dumps({k: v for k, v in f.items() if k not in ("history", "stack")})[:600])
+            if ctx.fails:
+                ctx.coverage["rule"] = "replay of one recorded %s case (the full check was not run)" % mode
+                return ctx.finish("Replay: %s case %d of seed %d was re-generated from its seed and re-run on the real "
+                                  "code; the oracle fails again." % (mode, case, seed))
+            print("the replayed case no longer fails; running the full check")
         _, _, m = ctx.run_hx("facts", 0, extra_args=["-extra", vlib.REPO])
         if m.get("facts_error") or m.get("harness_rc"):
             ctx.oblige("facts extracted from circuit/*.go", False,
@@ -208,6 +284,16 @@ def run(ctx):
         # real code; documents the limit, is neither an obligation nor a violation
         _, _, m = ctx.run_hx("contract", 20, tag="-contract")
         ctx.coverage["usage_contract_limit_replayed_on_real_code"] = m.get("contract", {"error": m.get("harness_log", "")[-300:]})
+        # GC histories first: cheap, sequential, replayable
+        for s in seeds:
+            gchist(ctx, 120 if quick else 600, s)
+        if ctx.widen:
+            # a structural fact of the pool protocol broke or an advisory drifted (e.g. Garble's / Release's effect
+            # set gained an escape into the collector's callbacks, a new Put path): longer GC histories, more seeds
+            for s in range(ctx.seed + 5000, ctx.seed + 5003):
+                gchist(ctx, 200, s, wide=True)
+                if ctx.fails:
+                    break
         for s in seeds:
             stress(ctx, 3000 if quick else 15000, s)
     race = ctx.build_hx(race=True)
@@ -228,21 +314,34 @@ def run(ctx):
     want = []
     if ctx.coverage.get("completed_plain_runs"):
         want += [("rounds_first_use_raced", 3), ("rounds_with_reuse", 10),
-                 ("rounds_with_overlapping_handles", 10), ("ev_A", 10), ("ev_Q", 10)]
+                 ("rounds_with_overlapping_handles", 10), ("ev_A", 10), ("ev_Q", 10), ("ev_D", 50), ("ev_K", 50)]
+    if c.get("gc_rounds"):
+        want += [("gc_reads_of_data_only_garbling_after_collection_and_later_garble", 100),
+                 ("gc_retained_header_kept", 30), ("gc_kind_gc-procs1", 20), ("gc_kind_gc-procs0", 10),
+                 ("gc_ev_K", 100), ("gc_scratch_reuses", 100)]
     if ctx.coverage.get("completed_race_runs"):
         want += [("race_rounds_first_use_raced", 3), ("race_rounds_with_reuse", 10),
-                 ("race_rounds_with_overlapping_handles", 10)]
+                 ("race_rounds_with_overlapping_handles", 10), ("race_ev_D", 20), ("race_ev_K", 20)]
     for key, least in want:
         ctx.oblige("generator reached %s >= %d" % (key, least), c.get(key, 0) >= least,
                    "got %s" % c.get(key, 0))
     ctx.coverage["rule"] = (
         "rounds of 1..25 goroutines on one shared random circuit (<=400 gates quick, <=800 thorough; kinds: "
         "first-use race on a fresh circuit with a spin barrier, mixed random op scripts, one long-lived handle "
-        "re-read while others garble, sequential reuse, invalid-gate error path); ops: Garble (2..6 tapes/keys "
+        "re-read while others garble, sequential reuse, invalid-gate error path, mixed scripts with header drops "
+        "(the goroutine keeps only R/Wires/Gates of a live garbling) and forced collections); ops: Garble (2..6 tapes/keys "
         "per round), re-read of a live handle, Eval on the live handle's tables, Eval on copies after Release, "
         "Compute, Release, second Release, three early-return paths, nil/zero-value Release, hand-off of a "
         "handle between goroutines; seeded Gosched/sleep yields.  distinct = distinct event traces with >= 2 "
-        "goroutines and >= 1 Garble.  Each run once without and once with the race detector.")
+        "goroutines and >= 1 Garble.  Each run once without and once with the race detector.  GC histories (mode "
+        "gchist, plain build): one circuit (<= 1500 gates), 3..6 phases (8..15 widened) of [1..2 Garble whose caller "
+        "keeps only R/Wires/Gates and drops the *Garbled (60 %) or keeps the header (control); 1..2 runtime.GC() + "
+        "Gosched / 1-3 ms sleeps for the finalizer goroutine (75 %); 1..4 Garble+verify+Release(+second Release) of "
+        "other sessions inline or by 1..3 joined goroutines; re-reads (digest vs the snapshot at Garble's return = "
+        "single-goroutine reference) and evaluations of retained garblings; Release / second Release of header-kept "
+        "ones; error path], closing with a collection, more garblings and a re-read + evaluation of everything "
+        "retained; under GOMAXPROCS 1 (half), 2 and default; a scratch is identified by the address of the wire "
+        "buffer.  distinct GC history = trace with a header drop, a later collection and a later Garble.")
     ctx.assumptions += [
         "usage contract of *Garbled as scoped by the doc comment of Release: one goroutine at a time inside a "
         "method of a given handle, no use after Release, no by-value copy; outside it the code double-Puts "
@@ -251,6 +350,9 @@ def run(ctx):
         "happens-before the Get that returns the item (Go memory model / sync.Pool documentation)",
         "Go-memory-model data races are not modelled; they are sampled by the race detector on the schedules "
         "the stress harness produces",
+        "the collector reclaims only unreachable objects and runs only callbacks the program registered "
+        "(Model/PoolGC.lean: the only collector transition is a registered finalizer; sync.Pool dropping cached "
+        "items at a collection is covered by Get's free choice of a new scratch)",
         "the circuit's gate list is not mutated while it is shared (AssignLevels and the compiler are not part "
         "of the property's operations)",
         "stale scratch contents do not influence a result: for well-formed circuits every wire that is read "
@@ -265,8 +367,15 @@ def run(ctx):
         "Theorems (Props/C17.lean, induction over the step relation = all interleavings, any number of "
         "goroutines/calls/handles, every choice of sync.Pool.Get, every early return): pool_unique, "
         "scratch_owned_once, garble_isolated (+ history-free corollary), release_idempotent; the usage-contract "
-        "limit is exhibited by two negation witnesses on the contract-free model.  Tie: go/ast facts about "
+        "limit is exhibited by two negation witnesses on the contract-free model.  GC histories (Model/PoolGC.lean: "
+        "header drops + a collector that may run any registered finalizer): gc_put_only_by_release_or_error_path "
+        "(the code registers none: no collector transition, only Release and Garble's error path Put), "
+        "retained_garbling_valid (the data of a garbling whose header was dropped is the single-goroutine result "
+        "and stays so along every further history, its scratch stranded), autorelease_breaks_retained_validity "
+        "(negation witness: with a finalizer = Release the retained data shows another call's result).  Tie: go/ast facts about "
         "Garble/Release/garbleScratchPool/Eval/Compute; event traces of real concurrent runs (scratch and pool "
         "object identity of every handle, content digests, releases) accepted by the Lean model step function.  "
         "Oracle: every concurrent Garble/Eval/Compute result equals the single-goroutine result for the same "
-        "tape and key, live handles never change, one pool object per circuit, no race-detector report.")
+        "tape and key, live handles never change, one pool object per circuit, no race-detector report; in GC "
+        "histories the retained data of every unreleased garbling (header kept or dropped) is unchanged and "
+        "evaluates correctly after collections and further Garble calls.")
